@@ -249,36 +249,36 @@ type c05World struct {
 	admin  *http.Cookie
 	webui  int
 	// per history
-	cookies   []c05Cookie
-	tokens    []c05Tok
-	fresh     int
-	nowM      int64
-	txReal    map[int]string
-	txOwner   map[int]int
-	vcTx      map[int]int
-	vcAt      map[int]int64 // model time at which the push transaction of that cookie value was started
-	chalBytes map[int][]byte
-	chalOwner map[int]int
-	chalAt    map[int]int64
-	curChal   map[int]int
-	otpVal    map[int]string
-	otpOwner  map[int]int
-	otpExp    map[int]int64
-	curOtp    map[int]int
-	proved    map[[2]int]bool
-	provedAt  map[[2]int]int64 // model time of the latest verification of (user, factor)
-	accepted  map[string]bool
-	realStep  int64
+	cookies        []c05Cookie
+	tokens         []c05Tok
+	fresh          int
+	nowM           int64
+	txReal         map[int]string
+	txOwner        map[int]int
+	vcTx           map[int]int
+	vcAt           map[int]int64 // model time at which the push transaction of that cookie value was started
+	chalBytes      map[int][]byte
+	chalOwner      map[int]int
+	chalAt         map[int]int64
+	curChal        map[int]int
+	otpVal         map[int]string
+	otpOwner       map[int]int
+	otpExp         map[int]int64
+	curOtp         map[int]int
+	proved         map[[2]int]bool
+	provedAt       map[[2]int]int64 // model time of the latest verification of (user, factor)
+	accepted       map[string]bool
+	realStep       int64
 	expiredSession bool // the last auth cookie attached to the current request is expired
-	cert      int  // the next request carries a verified keymaster client certificate of this user (0: none)
-	fault     bool // profile writes fail during the next request
-	chains    map[int][][]*x509.Certificate
-	dirty     bool // stored profiles may differ from the pristine ones
-	savedFor  int  // configuration the stored profiles were written for
-	cfgID     int
-	ops       []string
-	outs      []string
-	human     []string
+	cert           int  // the next request carries a verified keymaster client certificate of this user (0: none)
+	fault          bool // profile writes fail during the next request
+	chains         map[int][][]*x509.Certificate
+	dirty          bool // stored profiles may differ from the pristine ones
+	savedFor       int  // configuration the stored profiles were written for
+	cfgID          int
+	ops            []string
+	outs           []string
+	human          []string
 }
 
 // A CLI token's expiry is a signed claim the harness cannot move: tokens that must stay valid live longer
@@ -610,7 +610,7 @@ func (w *c05World) emitted(rr *httptest.ResponseRecorder) []c05Cookie {
 			cands = append(cands, o.iatM)
 		}
 		for _, cand := range cands {
-			if d := cand - rawIat; d >= -4 && d <= 4 && (!found || abs64(d) < abs64(best-rawIat)) {
+			if d := cand - rawIat; d >= -14 && d <= 14 && (!found || abs64(d) < abs64(best-rawIat)) {
 				best, found = cand, true
 			}
 		}
@@ -632,7 +632,7 @@ func (w *c05World) emitted(rr *httptest.ResponseRecorder) []c05Cookie {
 			}
 		}
 		for _, cand := range expCands {
-			if d := cand - c.expM; d > 0 && d <= 4 {
+			if d := cand - c.expM; d > 0 && d <= 14 {
 				c.expM = cand
 				break
 			}
